@@ -43,6 +43,11 @@ pub struct Sim {
     pub revocations: AtomicU64,
     /// number of currently revoked threads (fast-path check in the function-entry hook)
     pub outstanding: std::sync::atomic::AtomicUsize,
+    /// operations completed by each simulated thread (for call-backs that wait on another thread)
+    pub ops_done: Vec<std::sync::atomic::AtomicUsize>,
+    /// threads nobody may wait for: finished, killed, or held back by a stall fault
+    pub no_wait: Vec<AtomicBool>,
+    pub dependent_waits: AtomicU64,
 }
 
 pub const Y_OP: u32 = 1; // between the library calls of a compound operation
@@ -110,6 +115,9 @@ impl Sim {
             sync_points: AtomicU64::new(0),
             revocations: AtomicU64::new(0),
             outstanding: std::sync::atomic::AtomicUsize::new(0),
+            ops_done: (0..n).map(|_| std::sync::atomic::AtomicUsize::new(0)).collect(),
+            no_wait: (0..n).map(|_| AtomicBool::new(false)).collect(),
+            dependent_waits: AtomicU64::new(0),
         })
     }
 
@@ -300,4 +308,34 @@ pub fn sync_point(sim: &Sim, me: usize) {
     YIELDS.with(|y| *y.borrow_mut() += 1);
     sim.give_back(me, false, "synchronisation function entry");
     sim.wait_turn(me);
+}
+
+/// A caller-supplied stream whose data depends on another caller thread: called from inside a
+/// `Read::read` call-back, it does not return until the simulated thread with the next lower
+/// index has completed one more library operation (or can no longer be waited for). A library
+/// that holds a lock across the call-back while that other thread needs the lock never
+/// terminates here; the scheduler reports that through its livelock / deadlock path.
+/// Dependencies only point to lower indices, so the harness itself cannot create a cycle.
+pub fn wait_for_lower_thread(at: &'static str) {
+    let cur = CUR.with(|c| c.borrow().clone());
+    if let Some((sim, me)) = cur {
+        if me == 0 || sim.yield_mask & Y_READ == 0 {
+            return;
+        }
+        let other = me - 1;
+        let seen = sim.ops_done[other].load(Ordering::SeqCst);
+        let mut counted = false;
+        loop {
+            if sim.no_wait[other].load(Ordering::SeqCst) || sim.ops_done[other].load(Ordering::SeqCst) > seen {
+                return;
+            }
+            if !counted {
+                sim.dependent_waits.fetch_add(1, Ordering::Relaxed);
+                counted = true;
+            }
+            YIELDS.with(|y| *y.borrow_mut() += 1);
+            sim.give_back(me, false, at);
+            sim.wait_turn(me);
+        }
+    }
 }
